@@ -742,6 +742,10 @@ func (w *simWorld) deliver(d *simDatagram) {
 	}
 	if w.observe != nil {
 		// observed delivery: digest the receiver before and after
+		if w.beforeDeliver != nil {
+			w.pump()
+			w.beforeDeliver(to, d)
+		}
 		if ob := w.deliverObserved(d); ob != nil {
 			w.rc.Count("ev.deliver", 1)
 			w.observe(ob, d)
